@@ -65,6 +65,8 @@ func c02String(class string, seed int) string {
 	case "quote":
 		return []string{`"quoted" \back\slash </script> ` + tag, `{"jsonrpc":"2.0","id":1,"result":{}}`, `\u0041 \n literal escapes \\ "`, "data: looks like sse\\n",
 			`literal \u003cb\u003e \u0026amp; next to real <b> & </b> ` + tag, `{"html":"\u003cdiv\u003e","s":"a\\u0026b"} <>&`}[seed%6]
+	case "percent":
+		return []string{"quota at 100% for tenant 7 " + tag, "%s %d %v %!x %%", "name%20with%2Fescapes%", "50%!(EXTRA string=x)"}[seed%4]
 	case "control":
 		return []string{"ctl\x01\x02\x1f\x7fend" + tag, "tab\there\x0bvt\x0cff", "\x1b[31mred\x1b[0m", "nul\x00inside"}[seed%4]
 	case "astral":
